@@ -376,3 +376,14 @@ def _anc(n: ast.AST):
     while p is not None:
         yield p
         p = parent(p)
+
+_core_run = run
+
+
+def run(ctx: Context) -> None:  # noqa: F811
+    _core_run(ctx)
+    from . import backend
+
+    ctx.rep.rule('C15.R6', 'every raw socket / runtime call of a backend operation (directly or through a helper) lies inside a map_exceptions scope; close() is exactly the release call')
+    backend.raw_calls_mapped(ctx, 'C15.R6')
+    ctx.rep.explanation = (ctx.rep.explanation or '') + ' R6 (transport layer): no raw socket/runtime call of a backend operation lies outside map_exceptions (close()/aclose() may contain only the release itself).'
